@@ -67,9 +67,33 @@ package transmit
 //@ ghost doN(ref) int
 // the client, the pool and the table are set when the transmission is built
 //@ final transmit.DirectTransmission.httpClient
+//@ final transmit.DirectTransmission.Metrics
+//@ final transmit.DirectTransmission.metricKeys
 // helpers of sendBatch: logging / metrics / encoding; none of them sends a request
-//@ assume transmit.(*DirectTransmission).handleBatchFailure
-//@ assume transmit.(*DirectTransmission).handleEventError
+// ---- C26 / C36: every event handed to sendBatch gets exactly one outcome - the queued-items gauge, raised once
+// per event by EnqueueEvent, is lowered exactly once per event whatever happens to it (sent, refused by the API,
+// too large to encode, its request failed), so it returns to zero once every event has an outcome; and no answer
+// is read after its body has been closed (an answer the code has decided to retry is never used as the final one).
+//@ ghost downN(ref, string) int
+//@ assume metrics.MetricsBackend.Down
+//@   ghostupdate[queued-items-gauge@C26,C36] downN(this, name) :: downN(this, name) == old(downN(this, name)) + 1
+//@ assume transmit.(*DirectTransmission).handleError
+//@ contract transmit.(*DirectTransmission).handleEventError props C26,C36
+//@   assert only none
+//@   requires d != nil
+//@   let m = d.Metrics
+//@   let k = d.metricKeys.updownQueuedItems
+//@   ensures[the-event-has-its-outcome] downN(m, k) == old(downN(m, k)) + 1
+//@   modifies all(downN)
+//@ contract transmit.(*DirectTransmission).handleBatchFailure props C26,C36
+//@   arith math
+//@   assert only none
+//@   requires d != nil
+//@   let m = d.Metrics
+//@   let k = d.metricKeys.updownQueuedItems
+//@   ensures[every-event-of-the-batch-has-its-outcome] downN(m, k) == old(downN(m, k)) + len(batch)
+//@   loop 1 invariant[one-per-event-so-far] downN(m, k) == old(downN(m, k)) + iter && toInt(d.Metrics) == toInt(m) && d.metricKeys.updownQueuedItems == k
+//@   modifies all(downN)
 //@ assume transmit.(*batchedEvent).MarshalMsg
 //@ assume transmit.buildRequestURL
 //@ assume transmit.httpError.Timeout
@@ -84,3 +108,33 @@ package transmit
 //@   loop 3 invariant[headers-send-nothing] doN(c) <= old(doN(c)) + try && try < 2 && toInt(d.httpClient) == toInt(c)
 //@   loop 4 invariant[responses-send-nothing] doN(c) <= old(doN(c)) + 2
 //@   loop 5 invariant[errors-send-nothing] doN(c) <= old(doN(c)) + 2
+
+// the whole of sendBatch: the outcomes add up over all sub-batches
+// parsing a Retry-After value and waiting it out touch nothing the transmission can see
+//@ package time
+//@ assume time.ParseDuration
+//@ package net/http
+//@ assume net/http.ParseTime
+//@ package github.com/jonboulle/clockwork
+//@ assume github.com/jonboulle/clockwork.Clock.Until
+//@ assume github.com/jonboulle/clockwork.Clock.Sleep
+//@ package transmit
+//@ contract transmit.(*DirectTransmission).sendBatch props C26,C36 havoc noinv
+//@   arith math
+//@   assert only none
+//@   requires d != nil && d.httpClient != nil
+//@   let m = d.Metrics
+//@   let k = d.metricKeys.updownQueuedItems
+//@   let n = len(wholeBatch)
+//@   let d0 = downN(d.Metrics, d.metricKeys.updownQueuedItems)
+//@   ensures[every-event-gets-exactly-one-outcome] downN(m, k) == d0 + n
+//@   loop 1 invariant[taken-so-far-have-their-outcome] len(wholeBatch) <= n && downN(m, k) == d0 + n - len(wholeBatch) && toInt(d.Metrics) == toInt(m) && d.metricKeys.updownQueuedItems == k && d.httpClient != nil
+//@   loop 2 invariant[skipped-events-have-their-outcome] 0 <= i && i <= len(wholeBatch) && len(subBatch) <= i && len(wholeBatch) <= n && downN(m, k) == d0 + n - len(wholeBatch) + i - len(subBatch) && toInt(d.Metrics) == toInt(m) && d.metricKeys.updownQueuedItems == k && d.httpClient != nil
+//@   loop 3 invariant[the-sub-batch-is-still-pending] len(wholeBatch) <= n && downN(m, k) == d0 + n - len(wholeBatch) - len(subBatch) && toInt(d.Metrics) == toInt(m) && d.metricKeys.updownQueuedItems == k && d.httpClient != nil
+// an answer whose body the code has closed is one it has decided to retry: it may end up as the final answer only
+// when no attempt is left (the second 429/503 in a row), never because the retry was skipped
+//@   loop 3 exits[an-answer-set-aside-for-a-retry-is-retried-while-an-attempt-is-left] resp != nil && resp.Body != nil && bodyClosed(resp.Body) ==> try >= 2
+//@   loop 4 invariant[headers-change-nothing] len(wholeBatch) <= n && downN(m, k) == d0 + n - len(wholeBatch) - len(subBatch) && toInt(d.Metrics) == toInt(m) && d.metricKeys.updownQueuedItems == k && d.httpClient != nil
+//@   loop 5 invariant[answered-so-far-have-their-outcome] len(wholeBatch) <= n && downN(m, k) == d0 + n - len(wholeBatch) - len(subBatch) + iter && toInt(d.Metrics) == toInt(m) && d.metricKeys.updownQueuedItems == k && d.httpClient != nil
+//@   loop 6 invariant[failed-so-far-have-their-outcome] len(wholeBatch) <= n && downN(m, k) == d0 + n - len(wholeBatch) - len(subBatch) + iter && toInt(d.Metrics) == toInt(m) && d.metricKeys.updownQueuedItems == k && d.httpClient != nil
+//@   modifies all(downN), all(bodyClosed), all(doN)
